@@ -18,7 +18,8 @@ RES2 = ["K*(892)bar0", "rho(770)0", "rho(1450)0", "omega(782)0", "KPi00", "PiPi0
 RES3 = ["K(1)(1270)bar-", "K(1)(1400)bar-", "K(1460)bar-", "a(1)(1260)+", "K(2)*(1430)bar-", "K(1)(1270)+", "a(1)(1260)-"]
 SPIN = [None, "S", "P", "D"]
 LSTAG = [None, "GSpline.EFF", "kMatrix.pole.1", "FOCUS.Kpi", "BW", "kMatrix.prod.0", "FOCUS.I32"]
-EVENT_TYPES = [["D0", "K-", "pi+", "pi+", "pi-"], ["D0", "pi+", "pi-", "pi+", "pi-"], ["D0", "K+", "K-", "pi+", "pi-"], ["D0", "K-", "pi+", "pi0"]]
+EVENT_TYPES = [["D0", "K-", "pi+", "pi+", "pi-"], ["D0", "pi+", "pi-", "pi+", "pi-"], ["D0", "K+", "K-", "pi+", "pi-"], ["D0", "K-", "pi+", "pi0"],
+               ["D0", "K-", "pi+", "pi+", "pi+"]]        # the last one: a particle three times (3! assignments)
 
 _memo: dict = {}
 _memo_stats = {"hits": 0, "misses": 0}
@@ -167,7 +168,7 @@ def gen_model(rng):
         params.append((nm, rng.choice([0, 2, 3, "2.0", "0.0", "-1"]), rng.choice(["0.0037559", "-0.39899", "1289.81", "2", "1e-3", "+0.5"]), rng.choice(["0", "0.557988", "1.5"])))
     consts = []
     for i in range(rng.choice([0, 0, 1, 2, 3])):
-        consts.append((rng.choice(["a(1)(1260)+::Spline::Min", "K(1460)bar-::Spline::N", "K(1)(1270)bar-::Spline::Max", "Some::Const"]) + ("" if i == 0 else str(i)),
+        consts.append((rng.choice(["a(1)(1260)+::Spline::Min", "K(1460)bar-::Spline::N", "K(1)(1270)bar-::Spline::Max", "Some::Const"]) + ("" if i == 0 or rng.random() < 0.3 else str(i)),
                        rng.choice(["0.18412", "40", "3", "1.9", "-2.5"])))
     cart = rng.choice([None, None, 0, 1])
     extras = []
@@ -308,6 +309,14 @@ TEMPLATES = {
         "sVP": ["D0{K(1460)bar-{K*(892)bar0{K-,pi+},pi-},K+}"],
     },
 }
+TEMPLATES[4] = {  # D0 K- pi+ pi+ pi+ (the code does not look at charges)
+    "VS": ["D0{K*(892)bar0{K-,pi+},PiPi00{pi+,pi+}}"],
+    "SS": ["D0{KPi00{K-,pi+},PiPi00{pi+,pi+}}"],
+    "AVP": ["D0{K(1)(1270)bar-%s{K*(892)bar0{K-,pi+},pi+},pi+}"],
+    "ASP": ["D0{K(1)(1270)bar-{KPi00{K-,pi+},pi+},pi+}"],
+    "TVP": ["D0{K(2)*(1430)bar-{K*(892)bar0{K-,pi+},pi+},pi+}"],
+    "sVP": ["D0{K(1460)bar-{K*(892)bar0{K-,pi+},pi+},pi+}"],
+}
 # the 11 structure keys of the library's published table, by (template family, wave tag)
 STRUCTURES = [("VV", ""), ("VV", "[P]"), ("VV", "[D]"), ("VS", ""), ("SS", ""), ("AVP", ""), ("AVP", "[D]"), ("ASP", ""), ("TVP", ""), ("sSP", ""), ("sVP", "")]
 LS_KINDS = ["RBW", "GSpline", "kMatrix", "FOCUS"]
@@ -364,7 +373,7 @@ def resonances(node):
 
 def gen_fourbody(rng, event_idx=None, picks=None, namps=None, dangle=True):
     """Abstract four-body option file over the supported spin structures.  picks: [(family, wave, lineshape kind)] to force."""
-    event_idx = rng.randrange(3) if event_idx is None else event_idx
+    event_idx = rng.choice([0, 1, 2, 4]) if event_idx is None else event_idx
     event = list(EVENT_TYPES[event_idx])
     if rng.random() < 0.5:        # any arrangement of the final state (identical particles adjacent or not)
         finals = event[1:]
@@ -436,6 +445,8 @@ def gen_fourbody(rng, event_idx=None, picks=None, namps=None, dangle=True):
     params.append(("D0_radius", 2, "0.0037559", "0"))
     params.append(("free_without_error", 0, repr(round(rng.uniform(0.1, 2), 4)), "0"))
     params.append(("fixed_with_error", 2, repr(round(rng.uniform(0.1, 2), 4)), "0.25"))
+    if rng.random() < 0.6:
+        rng.shuffle(consts)        # Min / Max / N of a spline in any order
     rng.shuffle(params)
     return {"event": event, "lines": lines, "params": params, "consts": consts, "cartesian": rng.choice([None, None, 0, 1]), "extras": []}
 
